@@ -12,8 +12,8 @@ open Pyxv Pyxv.Binds
 
 /-! ## bind_of_row -/
 
-/-- the two reasons an entry of the bind dict is not emitted -/
-def dropped (trig : Bool) (k : Str) : Bool := (trig && decide (k = calcKey)) || blockedAttrs.contains k
+/-- the one reason an entry of the bind dict is not emitted: a triggered question's `calculate` -/
+def dropped (trig : Bool) (k : Str) : Bool := trig && decide (k = calcKey)
 
 /-- lookup in the attribute list `xml_bindings` emits -/
 theorem lookup_attrsOf (root : Str) (tops : List Str) (path : Str) (trig : Bool) :
@@ -38,7 +38,7 @@ theorem lookup_attrsOf (root : Str) (tops : List Str) (path : Str) (trig : Bool)
       simp only [lookup]
       by_cases hk : k = k0
       · subst hk
-        have : dropped trig k = true := by unfold dropped; rw [hc]; rfl
+        have : dropped trig k = true := hc
         rw [if_pos this, if_pos this]
       · rw [if_neg hk]
     · next hc =>
@@ -48,56 +48,39 @@ theorem lookup_attrsOf (root : Str) (tops : List Str) (path : Str) (trig : Bool)
         split at h
         · cases h
         · next s' hs' =>
-          split at h
-          · next hb =>
-            rw [ih attrs h k]
+          cases hr : attrsOf root tops path trig rest with
+          | none => rw [hr] at h; cases h
+          | some r' =>
+            rw [hr] at h
+            simp only [Option.map_some, Option.some.injEq] at h
+            subst h
             simp only [lookup]
             by_cases hk : k = k0
             · subst hk
-              have : dropped trig k = true := by unfold dropped; rw [hb]; exact Bool.or_true _
-              rw [if_pos this, if_pos this]
-            · rw [if_neg hk]
-          · next hb =>
-            cases hr : attrsOf root tops path trig rest with
-            | none => rw [hr] at h; cases h
-            | some r' =>
-              rw [hr] at h
-              simp only [Option.map_some, Option.some.injEq] at h
-              subst h
-              simp only [lookup]
-              by_cases hk : k = k0
-              · subst hk
-                have hd : dropped trig k = false := by
-                  unfold dropped
-                  have h1 : (trig && decide (k = calcKey)) = false := by
-                    cases hx : (trig && decide (k = calcKey)) with
-                    | false => rfl
-                    | true => exact absurd hx hc
-                  have h2 : blockedAttrs.contains k = false := by
-                    cases hx : blockedAttrs.contains k with
-                    | false => rfl
-                    | true => exact absurd hx hb
-                  rw [h1, h2]; rfl
-                rw [if_pos rfl, if_pos rfl, hd]
-                simp only [Bool.false_eq_true, if_false, Option.bind_some, Spec.value, hs, hs']
-              · rw [if_neg hk, if_neg hk]
-                exact ih r' hr k
+              have hd : dropped trig k = false := by
+                unfold dropped
+                cases hx : (trig && decide (k = calcKey)) with
+                | false => rfl
+                | true => exact absurd hx hc
+              rw [if_pos rfl, if_pos rfl, hd]
+              simp only [Bool.false_eq_true, if_false, Option.bind_some, Spec.value, hs, hs']
+            · rw [if_neg hk, if_neg hk]
+              exact ih r' hr k
 
 /-- **bind_of_row.**  The attribute list of a question's bind is, as a finite map, exactly what the
-    property prescribes: for every attribute name `k` (other than the two names `utils.node`
-    swallows — known finding `C05-bind-attr-named-like-node-kwarg`) the value is the converted,
+    property prescribes: for every attribute name `k` the value is the converted,
     reference-substituted logic cell of *this row* if it has one for `k`, else the converted
-    type-table value, else absent.  For all type-table entries, all rows, all expressions.
+    type-table value, else absent.  For all type-table entries, all rows, all expressions, all
+    attribute names (no guard: the defect `C05-bind-attr-named-like-node-kwarg` is repaired).
     (`hl`: the row's bind keys are distinct — `processRow_bind_keys_nodup` below.) -/
 theorem bind_of_row (root : Str) (tops : List Str) (path : Str) (trig : Bool)
     (tt : List (Str × Str)) (logic : BindDict) (attrs : List (Str × Str))
     (hl : (logic.map (·.1)).Nodup)
     (h : attrsOf root tops path trig (dictUpdate (tt.map fun (k, v) => (k, BVal.s v)) logic) = some attrs)
-    (k : Str) (hk : blockedAttrs.contains k = false) :
+    (k : Str) :
     lookup k attrs = (Spec.source tt logic trig k).bind (Spec.value root tops path k) := by
   rw [lookup_attrsOf root tops path trig _ attrs h k, lookup_dictUpdate _ _ _ hl, lookup_map_s]
   unfold Spec.source dropped
-  rw [hk, Bool.or_false]
   cases hc : (trig && decide (k = calcKey)) with
   | true => rfl
   | false =>
@@ -129,15 +112,13 @@ theorem attrsOf_keys_sublist (root : Str) (tops : List Str) (path : Str) (trig :
       · cases h
       · split at h
         · cases h
-        · split at h
-          · exact (ih attrs h).cons _
-          · cases hr : attrsOf root tops path trig rest with
-            | none => simp [hr] at h
-            | some r' =>
-              simp only [hr, Option.map_some, Option.some.injEq] at h
-              subst h
-              simp only [List.map_cons]
-              exact (ih r' hr).cons_cons _
+        · cases hr : attrsOf root tops path trig rest with
+          | none => simp [hr] at h
+          | some r' =>
+            simp only [hr, Option.map_some, Option.some.injEq] at h
+            subst h
+            simp only [List.map_cons]
+            exact (ih r' hr).cons_cons _
 
 /-- **no attribute duplicated**: the attribute names of an emitted bind are pairwise distinct,
     whenever the type-table entry has distinct keys (a `decide` fact about the regenerated table,
@@ -242,6 +223,8 @@ theorem one_bind_per_node (root : Str) (ks : List RK) (bs : List Bind)
   split at h
   · cases h
   next bs' hr =>
+  split at h
+  case isFalse => cases h
   simp only [Out.ok.injEq] at h
   subst h
   refine (renderAll_paths _ _ _ _ hr).nodup ?_
@@ -464,6 +447,8 @@ theorem bindsOfRows_ok (root : Str) (ks : List RK) (bs : List Bind) (h : bindsOf
   split at h
   · cases h
   next bs' hr =>
+  split at h
+  case isFalse => cases h
   simp only [Out.ok.injEq] at h
   subst h
   exact ⟨es, hw, hr⟩
@@ -488,6 +473,39 @@ theorem noninterference_form (root : Str) (pre post : List RK) (r r' : RK) (hs :
     noninterference root _ [] pre post r r' hs es es' x x' hw hw' hx hx'
   exact ⟨a, m, m', b ++ y, by simp, by simp, h1, h2⟩
 
+/-! ## parameter-derived data type of `range` -/
+
+/-- **range_decimal_iff.**  A `range` row gets `type = decimal` iff *some* parameter — written in any
+    order, or left to its default — is a non-zero number written with a `.`; otherwise the type
+    table's `int` stays.  (`process_range_question_type`, seeded change C05-2.) -/
+theorem range_decimal_iff (ps : List (Str × Str)) (upd : List (Str × BVal))
+    (h : paramBind "range".toList ps = .ok upd) :
+    (upd = [("type".toList, .s "decimal".toList)] ↔
+      ∃ v ∈ (rangeWithDefaults ps).map (·.2), floatLit v = some (true, true)) ∧
+    (upd = [] ∨ upd = [("type".toList, .s "decimal".toList)]) := by
+  unfold paramBind at h
+  simp only [if_true] at h
+  split at h
+  · cases h
+  · split at h
+    · cases h
+    · split at h
+      · next hd =>
+        simp only [Except.ok.injEq] at h
+        subst h
+        refine ⟨⟨fun _ => ?_, fun _ => rfl⟩, Or.inr rfl⟩
+        unfold rangeIsDecimal at hd
+        obtain ⟨v, hv, hvv⟩ := List.any_eq_true.mp hd
+        exact ⟨v, hv, by simpa using hvv⟩
+      · next hd =>
+        simp only [Except.ok.injEq] at h
+        subst h
+        refine ⟨⟨fun e => (by cases e), fun ⟨v, hv, hvv⟩ => ?_⟩, Or.inl rfl⟩
+        exfalso
+        apply hd
+        unfold rangeIsDecimal
+        exact List.any_eq_true.mpr ⟨v, hv, by simp [hvv]⟩
+
 /-! ## non-vacuity: concrete data satisfying the hypotheses of the theorems above -/
 
 section Examples
@@ -510,6 +528,19 @@ example : ([(s "relevant", BVal.s (s "${a} > 1")), (s "required", .s (s "yes")),
 example : attrsOf (s "data") [s "a"] (s "/data/q") true
     [(s "type", .s (s "string")), (s "calculate", .s (s "1 + 1")), (s "jr:constraintMsg", .d [(s "fr", s "Non")])]
     = some [(s "type", s "string"), (s "jr:constraintMsg", s "jr:itext('/data/q:jr:constraintMsg')")] := by
+  decide +kernel
+
+/-- `bind::tag` is an attribute like any other (repaired defect) -/
+example : attrsOf (s "data") [] (s "/data/q") false [(s "type", .s (s "string")), (s "tag", .s (s "abc"))]
+    = some [(s "type", s "string"), (s "tag", s "abc")] := by
+  decide +kernel
+
+/-- `range_decimal_iff`: decimal bounds with an integer step, reordered, defaulted -/
+example : (paramBind (s "range") [(s "start", s "0.5"), (s "end", s "9.5"), (s "step", s "1")]).toOption
+      = some [(s "type", .s (s "decimal"))] ∧
+    (paramBind (s "range") [(s "step", s "0.25")]).toOption = some [(s "type", .s (s "decimal"))] ∧
+    (paramBind (s "range") [(s "start", s "0.0"), (s "end", s "5")]).toOption = some [] ∧
+    parseParams (s "end=7.5;start=1") = some [(s "end", s "7.5"), (s "start", s "1")] := by
   decide +kernel
 
 /-- `header_to_bind`: a spelling with case and spacing noise -/
